@@ -504,3 +504,54 @@ def require_cut(ctx, body, block, preds, key, what=""):
 def reachable_from_edge(body, g):
     """Blocks reachable from the target of guard g's edge."""
     return body.reachable(g.edge[1])
+
+
+# ---------------------------------------------------------------------------------------------
+# decision tables (T4)
+# ---------------------------------------------------------------------------------------------
+def extract_table(ctx, body, subject=None):
+    """Rows of a `match`-like function: [(keys, value_expr, block)], keys = frozenset of
+    ('int', v) / ('variant', name) / ('other',) taken from the guards on `subject` (a predicate on
+    the guard's expression; default: any param) dominating each return-value assignment."""
+    sym = ctx.sym(body)
+    rows = []
+    subj = subject or (lambda e: e[0] == "param" or (e[0] == "field" and e[1][0] == "param") or e[0] == "capture")
+    for b, si, st, e in ret_sites(body, sym):
+        gs = ctx.guards_at(body, b.idx)
+        keys = []
+        for g in gs:
+            if g.a is None or not subj(g.a):
+                continue
+            if g.kind == "int":
+                keys.append(("int", g.name))
+            elif g.kind == "is":
+                keys.append(("variant", g.name))
+            elif g.kind == "oneof":
+                for nm in g.name:
+                    keys.append(("variant", nm) if not str(nm).lstrip("-").isdigit() else ("int", int(nm)))
+            elif g.kind in ("intnot", "isnot"):
+                keys.append(("other",))
+        rows.append((tuple(keys), e, b.idx))
+    return rows
+
+
+def const_value(prog, e):
+    """Integer value of a constant expression (literal, named const, cast of one)."""
+    while e[0] == "cast":
+        e = e[2]
+    if e[0] == "const" and isinstance(e[1], int):
+        return e[1]
+    return None
+
+
+def variant_name(e):
+    """Variant name of an aggregate, no unwrapping."""
+    return e[2] if e is not None and e[0] == "agg" else None
+
+
+def variant_of(e):
+    """Variant name of an enum aggregate expression (through Some/Ok wrappers)."""
+    e = unwrap_ok(e)
+    if e[0] == "agg":
+        return e[2]
+    return None
